@@ -32,7 +32,7 @@ def as_built_dev():
 def render(shape):
     """A project with exactly the shape's number of page-bearing entities of each kind."""
     units = []     # (text) program units to distribute over files
-    inner_types = [f"  type :: ty{k}\n    !! type {k}\n    integer :: comp{k} !! component\n  contains\n    procedure :: bp{k}\n  end type ty{k}\n"
+    inner_types = [f"  type :: ty{k}\n    !! type {k}\n    integer :: comp{k} !! component\n  contains\n    procedure :: bp{k}\n    procedure :: run{k} => bp{k}\n    generic :: any{k} => bp{k}, run{k}\n  end type ty{k}\n"
                    for k in range(shape["types"])]
     inner_abs = [f"  abstract interface\n    subroutine ai{k}(x)\n      !! abstract interface {k}\n      integer :: x\n    end subroutine ai{k}\n  end interface\n"
                  for k in range(shape["absint"])]
@@ -43,6 +43,8 @@ def render(shape):
         spec = "".join(inner_types + inner_abs + inner_nl) if k == 0 else ""
         sub_iface = "".join(f"  interface\n    module subroutine ms{j}(a)\n      integer :: a\n    end subroutine ms{j}\n  end interface\n"
                             for j in range(shape["submodules"])) if k == 0 else ""
+        if k == 0:
+            sub_iface += "  interface gen0\n    !! generic interface\n    module procedure hs0\n  end interface gen0\n"
         use = f"  use mo{k - 1}\n" if k > 0 else ""
         impl = "".join(type_impl) if k == 0 else ""
         units.append(f"module mo{k}\n  !! module {k} see [[mo0]]\n{use}  implicit none\n  integer :: mv{k} = 1 !! variable\n{spec}{sub_iface}contains\n"
